@@ -120,6 +120,18 @@ func buildCorpus() []*vcase {
 	add("convert", func(a *asm) { a.pushData(ff33).convert(tBuffer).convert(tBool) })
 	add("convert", func(a *asm) { a.pushData(ff33).convert(tBuffer).convert(tInt) })
 	add("convert", func(a *asm) { a.pushData(ff33[:32]).convert(tBuffer).convert(tInt) })
+	// truthiness of reference types does not depend on their content
+	add("convert", func(a *asm) { a.pushData([]byte{}).convert(tBuffer).convert(tBool) })
+	add("convert", func(a *asm) { a.pushData([]byte{}).convert(tBuffer).op(opcode.NOT) })
+	add("convert", func(a *asm) { a.pushData([]byte{0}).convert(tBuffer).raw(byte(opcode.JMPIF), 3).op(opcode.PUSH1, opcode.PUSH2) })
+	add("convert", func(a *asm) { a.op(opcode.NEWARRAY0, opcode.NOT) })
+	add("convert", func(a *asm) { a.op(opcode.NEWMAP, opcode.NOT) })
+	add("convert", func(a *asm) { a.op(opcode.NEWSTRUCT0).convert(tBool) })
+	add("convert", func(a *asm) { a.op(opcode.NEWSTRUCT0, opcode.NEWMAP, opcode.BOOLAND) })
+	add("convert", func(a *asm) { a.raw(byte(opcode.PUSHA), 0, 0, 0, 0).op(opcode.NOT) })
+	add("convert", func(a *asm) { a.op(opcode.PUSHNULL, opcode.NOT) })
+	add("convert", func(a *asm) { a.op(opcode.PUSHNULL, opcode.NZ) })
+	add("convert", func(a *asm) { a.pushData([]byte{1}).convert(tBuffer).op(opcode.INC) })
 	zero32 := make([]byte, 32)
 	add("convert", func(a *asm) { a.pushData(zero32).convert(tBool) })
 	add("convert", func(a *asm) { a.pushData(zero32).op(opcode.NOT) })
